@@ -20,7 +20,7 @@ func init() {
 		Doc:  "name lower-casing dataflow; defaults-before-call option order; nil option / nil value guards; tag writer/reader agreement; signature rejections; struct walk",
 		Run:  runOpts,
 		Floor: map[string]int{
-			"LOWER": 4, "OPTORDER": 5, "NILOPT": 2, "NILOPT-F": 3, "REFLVALID": 3, "TAGS": 4, "REJECT": 8, "STRUCTWALK": 6,
+			"LOWER": 4, "OPTORDER": 4, "NILOPT": 2, "NILOPT-F": 3, "REFLVALID": 3, "TAGS": 4, "REJECT": 8, "STRUCTWALK": 6,
 		},
 	})
 }
@@ -204,12 +204,34 @@ func runOpts(c *Ctx) {
 				acs = append(acs, ci)
 			}
 		}
-		ac := c.oneSite("OPTORDER", "defaultsMerger", "option applier call", acs)
+		var ac ssa.CallInstruction
+		if len(acs) > 0 {
+			ac = acs[len(acs)-1]
+		}
 		if ac == nil {
 			c.R.Undecided("OPTORDER", "merger|call", "defaultsMerger", p.Pos(merger.Pos()), "defaults merger does not call the option applier")
 		} else {
-			arg := ac.Common().Args[len(ac.Common().Args)-1]
-			alts := c.optSeq(merger, arg, 0)
+			// one option list per call of the applier (an early `return apply(opts...)` when there are no defaults and the
+			// merged list otherwise are two sites): every site's list is classified under the guards of that site
+			var alts []optAlt
+			for _, site := range acs {
+				arg := site.Common().Args[len(site.Common().Args)-1]
+				noDef, em := c.optSiteGuards(merger, core.Guards(site.Block()))
+				for _, a := range c.optSeq(merger, arg, 0) {
+					a.guardNoDefaults = a.guardNoDefaults || noDef
+					if len(em) > 0 {
+						m := map[string]bool{}
+						for k := range a.empty {
+							m[k] = true
+						}
+						for k := range em {
+							m[k] = true
+						}
+						a.empty = m
+					}
+					alts = append(alts, a)
+				}
+			}
 			okAll := len(alts) > 0
 			var descr []string
 			for _, a := range alts {
@@ -317,33 +339,74 @@ func runOpts(c *Ctx) {
 				if !ok {
 					return
 				}
-				// inner map of argBuilder.<x>Sub: a map[string]reflect.Value looked up in a field of the builder
+				// inner map of argBuilder.<x>Sub: a map[string]reflect.Value that is (or is stored as) an element of a field
+				// of the builder
 				if core.TypeStr(mu.Map.Type()) != "map[string]reflect.Value" {
 					return
 				}
-				lk, ok := core.Strip(mu.Map).(*ssa.Lookup)
-				if !ok {
-					return
-				}
-				fr, ok := core.AsFieldLoad(lk.X)
-				if !ok || fr.Owner != "argBuilder" {
-					return
-				}
-				n++
-				// the subtype key: a captured option-constructor parameter (or a parameter itself)
-				key := mu.Key
-				var lits []core.Lit
-				lits = append(lits, p.ILits(in.Block())...)
-				if d := p.DerefFree(key); d != nil {
-					key = d
-				}
-				if fv, ok := key.(*ssa.FreeVar); ok {
-					if b := p.Binding(fv); b != nil {
-						key = b
+				field := ""
+				for _, sv := range core.Sources(mu.Map) {
+					switch x := core.Strip(sv).(type) {
+					case *ssa.Lookup:
+						if fr, ok := core.AsFieldLoad(x.X); ok && fr.Owner == "argBuilder" {
+							field = fr.Field
+						}
+					case *ssa.Extract:
+						if lk, ok := x.Tuple.(*ssa.Lookup); ok {
+							if fr, ok := core.AsFieldLoad(lk.X); ok && fr.Owner == "argBuilder" {
+								field = fr.Field
+							}
+						}
+					case *ssa.MakeMap:
+						for _, ref := range *x.Referrers() {
+							if m2, ok := ref.(*ssa.MapUpdate); ok && m2.Value == ssa.Value(x) {
+								if fr, ok := core.AsFieldLoad(m2.Map); ok && fr.Owner == "argBuilder" {
+									field = fr.Field
+								}
+							}
+						}
 					}
 				}
-				if mc := p.ClosureSite(f); mc != nil {
-					lits = append(lits, p.ILits(mc.Block())...)
+				if field == "" {
+					return
+				}
+				fr := core.FieldRef{Owner: "argBuilder", Field: field}
+				n++
+				// the subtype key, followed through the parameters of private steps and captured variables up to the option
+				// constructor's own parameter; the guards of every call / closure-creation site on the way count
+				key := mu.Key
+				fn := f
+				var lits []core.Lit
+				lits = append(lits, core.Lits(core.Guards(in.Block()))...)
+				for i := 0; i < 5; i++ {
+					if prm, ok := core.Strip(key).(*ssa.Parameter); ok && prm.Parent() == fn && p.PrivateHelper(fn) {
+						sites := p.Callers(fn)
+						if len(sites) != 1 {
+							break
+						}
+						for j, q := range fn.Params {
+							if q == prm && j < len(sites[0].Common().Args) {
+								key = sites[0].Common().Args[j]
+							}
+						}
+						lits = append(lits, core.Lits(core.Guards(sites[0].Block()))...)
+						fn = sites[0].Parent()
+						continue
+					}
+					if d := p.DerefFree(key); d != nil {
+						key = d
+					}
+					if fv, ok := key.(*ssa.FreeVar); ok {
+						if b := p.Binding(fv); b != nil {
+							key = b
+						}
+					}
+					if mc := p.ClosureSite(fn); mc != nil && fn.Parent() != nil {
+						lits = append(lits, core.Lits(core.Guards(mc.Block()))...)
+						fn = fn.Parent()
+						continue
+					}
+					break
 				}
 				nonEmpty := false
 				for _, l := range lits {
@@ -803,6 +866,35 @@ func (c *Ctx) optSeq(f *ssa.Function, v ssa.Value, d int) []optAlt {
 }
 
 // edgeGuard: the condition under which control goes from pred directly to succ.
+// optSiteGuards reads the guards of a call site of the option applier: is it reached only when the Func has no default
+// options, and which single-atom lists are known to be empty there.
+func (c *Ctx) optSiteGuards(f *ssa.Function, gs []core.Guard) (noDef bool, em map[string]bool) {
+	em = map[string]bool{}
+	for _, g := range gs {
+		l := core.LitOf(g.Cond, g.Pol)
+		if l.Kind != "cmp" {
+			continue
+		}
+		cl, ok := l.X.(*ssa.Call)
+		if !ok || core.CalleeName(cl.Common()) != "builtin.len" {
+			continue
+		}
+		k, isK := core.ConstInt(l.Y)
+		if !isK || k != 0 || !((l.Op == token.GTR && !l.Pol) || (l.Op == token.EQL && l.Pol)) {
+			continue
+		}
+		x := cl.Common().Args[0]
+		if fr, ok := core.AsFieldLoad(x); ok && fr.Owner == "Func" && core.TypeStr(x.Type()) == "[]Arg" {
+			noDef = true
+		}
+		as := c.optSeq(f, x, 1)
+		if len(as) == 1 && len(as[0].seq) == 1 {
+			em[as[0].seq[0]] = true
+		}
+	}
+	return
+}
+
 func edgeGuard(pred, succ *ssa.BasicBlock) []core.Guard {
 	if len(pred.Instrs) == 0 {
 		return nil
@@ -1413,6 +1505,18 @@ func (c *Ctx) runStructWalk(walker *ssa.Function) {
 				if r.Addr == ssa.Value(a) {
 					if ld, ok := r.Val.(*ssa.UnOp); ok {
 						collect(ld.X, depth+1)
+					}
+					// the whole value is built by a private step (`value := valueFromField(sf, i)`): its returned literal
+					if cl, ok := r.Val.(*ssa.Call); ok {
+						if h := cl.Common().StaticCallee(); h != nil && p.PrivateHelper(h) {
+							for _, hr := range core.Returns(h) {
+								if len(hr.Results) == 1 {
+									if ld, ok := hr.Results[0].(*ssa.UnOp); ok {
+										collect(ld.X, depth+1)
+									}
+								}
+							}
+						}
 					}
 				}
 			}
